@@ -157,9 +157,8 @@ def check_layout(params):
         # what draw() lays out for a diagram with bubbles: the walls are special boxes, so only
         # the part of the oracle that does not depend on them -- every node has a position, no
         # port or boundary node dangles, every edge points downwards
-        from discopy.drawing import add_drawing_attributes, diagram2nx
-        o = add_drawing_attributes(d.open_bubbles())
-        graph, pos = diagram2nx(o)
+        from discopy.drawing import diagram2nx
+        graph, pos = diagram2nx(d)          # opens the bubbles itself
         errs = []
         if set(pos) != set(graph.nodes):
             errs.append("positions are not defined exactly on the nodes of the graph")
